@@ -195,6 +195,7 @@ type Result struct {
 	Steps        int64
 	Merges       int
 	Restarts     int
+	FreshQueries int
 	Forks        int
 	Samples      []string
 	Bounds       map[string]int64
@@ -254,11 +255,20 @@ func NewEngine(p *Program, o Options) (*Engine, error) {
 	e := &Engine{P: p, C: smt.NewCtx(), lay: newLayout(p.IntW), opts: o,
 		glob: map[*ssa.Global]*Object{}, inited: map[*ssa.Package]bool{},
 		noMerge: map[ssa.Instruction]bool{}, qcache: map[[2]int]smt.Verdict{}, funcs: map[string]bool{}, stubs: map[string]bool{}, UFStubs: map[string]bool{}, Redirect: map[string]string{}, ForkIn: map[string]bool{}, ForkAll: map[string]bool{}, Havoc: map[string]bool{}}
-	s, err := smt.NewSolver(e.C, o.Timeout, o.SolverArgv...)
+	it := o.Timeout
+	if it > incrementalBudget {
+		it = incrementalBudget
+	}
+	s, err := smt.NewSolver(e.C, it, o.SolverArgv...)
 	if err != nil {
 		return nil, err
 	}
 	e.S = s
+	if f := os.Getenv("VERIF_SMTLOG"); f != "" {
+		if w, err := os.Create(f); err == nil {
+			s.Log = w
+		}
+	}
 	e.intercepts = builtinIntercepts()
 	return e, nil
 }
